@@ -145,7 +145,29 @@ def rp_filter(ctx):
     try:
         ok, n, wit = equivalent(filter_ir(t), union)
     except Unsupported as exc:
-        raise Unknown(c, f"outside the decidable fragment: {exc}", t.node)
+        # not a finite-state expression (a method of a helper object, ...): apply the functions themselves to all blade
+        # pairs of a 4- and a 3-dimensional algebra
+        from ..products import bounded_filter_table
+        bad, total = [], 0
+        for sig in ([0, 1, 1, -1], [1, 1, 1]):
+            try:
+                table, order = bounded_filter_table(repo, reg["rp"].codegen, sig)
+            except (ValueError, NoValue) as exc2:
+                raise Unknown(c, f"outside the decidable fragment: {exc}; not evaluable either: {exc2}", t.node)
+            Pk = 2 ** len(sig) - 1
+            for (kx, ky), (keep, ko) in table.items():
+                total += 1
+                if keep != ((kx | ky) == Pk) or (keep and ko != (kx & ky)):
+                    bad.append((sig, kx, ky, keep, ko))
+            if order != (0, 1):
+                bad.append((sig, "operands", order, None, None))
+        if bad:
+            ctx.violation(c, f"the regressive filter / key-out is not 'kx | ky == pss, then kx & ky': e.g. {bad[0]} ({len(bad)} of {total} blade "
+                             f"pairs of two representative algebras)", t.node)
+        else:
+            ctx.ok(c, t.node, spec="kx | ky == P, key-out kx & ky", all_widths=False, decided_for=f"all {total} blade pairs of a 4- and a 3-dimensional algebra")
+            ctx.ok(f"codegen.{reg['rp'].codegen}#keyout", t.node, decided_for="as the filter")
+        return
     if ok:
         ctx.ok(c, t.node, predicate=un(t.filter), spec="kx | ky == P", automaton_states=n, all_widths=True)
     else:
